@@ -367,7 +367,7 @@ class ExprMem(Expr):
             return False
         return self.arg == a.arg and self.size == a.size and self.segm == a.segm
     def __lt__(self, a):
-        return id(self) < id(a)
+        return str(self) < str(a)
     def __hash__(self):
         return hash(self.arg)^hash(self.size)^hash(self.segm)
     def toC(self):
@@ -735,11 +735,13 @@ class set_expr(object):
 
 def key_expr(e):
     if e.__class__ == ExprId:
-        return [ 1, e.name, e.size ]
+        return [ 1, e.name, e.size, e.is_reg ]
     elif e.__class__ == ExprCond:
         return [ 2, key_expr(e.cond), key_expr(e.src1), key_expr(e.src2) ]
     elif e.__class__ == ExprMem:
-        return [ 3, key_expr(e.arg), e.size ]
+        if e.segm is None:
+            return [ 3, key_expr(e.arg), e.size ]
+        return [ 3, key_expr(e.arg), e.size, key_expr(e.segm) ]
     elif e.__class__ == ExprOp:
         return [ 4, e.op ] + [ key_expr(e) for e in e.args ]
     elif e.__class__ == ExprSlice:
